@@ -101,16 +101,64 @@ Accepts(mods, table, keys, result) == SeqToSet(result) \in Allowed(mods, table, 
 (*  O4 roa = 1: from the 2nd quiet tick after an activation on, the OS key  *)
 (*     set is in Allowed(H minus X) for some X containing `must`: the output *)
 (*     cannot remain held.                                                   *)
+(*  O5 the BLOCKED loop: a tick whose can-block decision (cb) is true is     *)
+(*     the last one before the processing loop sleeps until the next input   *)
+(*     event, so nothing may be owed any more - the OS key set must already  *)
+(*     be the one the statement requires for good: acceptable (O2 without    *)
+(*     the 2-tick grace) and, with roa = 1, without the output of an         *)
+(*     activated override (O4 without waiting for the 2nd quiet tick).       *)
+(* Remapped keys: p.map (optional) = Seq([c, k]): physical key c is written  *)
+(* as the plain key k in the layer (injective); H, may, must hold the key    *)
+(* codes kanata is about to hold down, not the physical ones.                *)
+(* OS repeat events ("r" inputs; a repeat written to the OS shows as         *)
+(* ["d", code] in the out list of the "r" line):                             *)
+(*  R1 a repeat event makes kanata write at most one event, a repeat; when   *)
+(*     every input is processed and the OS key set is final (nothing owed,   *)
+(*     `fin`) only for a key the OS sees down - never for the replaced key   *)
+(*     or a released output.  (In the 1-tick window between a roa activation *)
+(*     and the tick that brings the modifiers back the statement is silent;  *)
+(*     a repeat for a key that is up is C14's question.)                     *)
+(*  R2 (sharp zone only: every input processed, the OS key set is the       *)
+(*     result of a sharp tick - `sh` - so no key was dropped, and roa = 0 or *)
+(*     the key has no candidate override) the override output stands "in     *)
+(*     place of that key": the repeat of a held non-modifier key k is        *)
+(*     forwarded, as a repeat of k or of the non-modifier output key of an   *)
+(*     override of k, whichever the OS sees down.  Which of several such     *)
+(*     keys that are down for different reasons repeats is C14's question.   *)
 (***************************************************************************)
 MonInit(p) == [p |-> p, pending |-> <<>>, H |-> <<>>, may |-> {}, must |-> {}, down |-> {},
-               bad |-> 0, quiet |-> 3, err |-> ""]
+               bad |-> 0, quiet |-> 3, sh |-> TRUE, fin |-> TRUE, err |-> ""]
 
 PMods(m) == SeqToSet(m.p.mods)
 DropKeys(H, X) == SelectSeq(H, LAMBDA k : k \notin X)
+\* the key written in the layer for physical key c (identity without p.map)
+PKeyOf(m, c) ==
+  IF "map" \in DOMAIN m.p /\ \E i \in DOMAIN m.p.map : m.p.map[i].c = c
+  THEN m.p.map[CHOOSE i \in DOMAIN m.p.map : m.p.map[i].c = c].k
+  ELSE c
+OutKeyOf(mods, o) == CHOOSE c \in SeqToSet(o.o) \ mods : TRUE
+\* keys the OS may see "in place of" key k: k itself, or the non-modifier output of an override of k
+StandIns(mods, table, k) == {k} \cup {OutKeyOf(mods, table[n]) : n \in {j \in DOMAIN table : InKeyOf(mods, table[j]) = k}}
+
+MonRepeat(m, r) ==
+  LET mods == PMods(m)
+      k == PKeyOf(m, r.c)
+      onlyReps == \A i \in DOMAIN r.out : r.out[i][1] = "d"
+      sharp == /\ m.pending = <<>> /\ m.sh /\ m.bad = 0 /\ k \notin mods /\ InSeq(m.H, k)
+               /\ (m.p.roa = 0 \/ AllCands(mods, m.p.table, m.H, k) = {})
+      stand == StandIns(mods, m.p.table, k) \cap m.down
+  IN IF Len(r.out) > 1 \/ ~onlyReps
+     THEN Fail(m, "C13 R1: an OS repeat event made kanata write more than one repeat")
+     ELSE IF m.pending = <<>> /\ m.fin /\ r.out # <<>> /\ r.out[1][2] \notin m.down
+     THEN Fail(m, "C13 R1: repeat written for a key the OS does not see pressed")
+     ELSE IF sharp /\ stand # {} /\ (r.out = <<>> \/ r.out[1][2] \notin stand)
+     THEN Fail(m, "C13 R2: the repeat of a held key was not forwarded for the key the OS sees in its place")
+     ELSE m
 
 MonIn(m, r) ==
   IF m.err # "" THEN m
-  ELSE IF r.e \in {"d", "u"} THEN [m EXCEPT !.pending = Append(@, [p |-> r.e = "d", c |-> r.c])]
+  ELSE IF r.e \in {"d", "u"} THEN [m EXCEPT !.pending = Append(@, [p |-> r.e = "d", c |-> PKeyOf(m, r.c)])]
+  ELSE IF r.e = "r" THEN MonRepeat(m, r)
   ELSE Fail(m, "C13: input kind outside the instance")
 
 AccSets(m, H, may) == UNION {Allowed(PMods(m), m.p.table, DropKeys(H, X)) : X \in SUBSET may}
@@ -139,10 +187,20 @@ MonTick(m, out, idle, cb) ==
                              THEN {ev.c} ELSE {})
         quiet1 == IF hasEv THEN 0 ELSE OMin(m.quiet + 1, 3)
         bad1 == IF okSoft THEN 0 ELSE m.bad + 1
+        \* the OS key set is the result of a sharp tick (nothing dropped, nothing owed) and nothing happened since
+        sh1 == IF hasEv THEN sharpTick /\ D1 \in Allowed(mods, tab, H1) ELSE m.sh /\ D1 = m.down
+        \* what the OS may see for good (no grace): O5
+        fin == IF m.p.roa = 1
+               THEN UNION {Allowed(mods, tab, DropKeys(H1, X)) : X \in {Y \in SUBSET may1 : must1 \subseteq Y}}
+               ELSE AccSets(m, H1, may0)
         m1 == [m EXCEPT !.pending = IF hasEv THEN Tail(@) ELSE @, !.H = H1, !.may = may1, !.must = must1,
-                        !.down = D1, !.bad = bad1, !.quiet = quiet1]
+                        !.down = D1, !.bad = bad1, !.quiet = quiet1, !.sh = sh1, !.fin = D1 \in fin]
     IN IF sharpTick /\ D1 \notin Allowed(mods, tab, H1)
        THEN Fail(m1, "C13 O1: OS key set differs from the override function of the held keys")
+       ELSE IF cb /\ D1 \notin fin /\ D1 \ UNION fin # {}
+       THEN Fail(m1, "C13 O5a: the loop may block (can_block) while a key that has to go up is still pressed at the OS (an override output is owed its release)")
+       ELSE IF cb /\ D1 \notin fin
+       THEN Fail(m1, "C13 O5b: the loop may block (can_block) while a still-held key that has to come back is not pressed at the OS (owed until the next input)")
        ELSE IF bad1 > 2
        THEN Fail(m1, "C13 O2: an override output stayed pressed / a held modifier did not come back within 2 ticks")
        ELSE IF ~hasEv /\ m.p.roa = 0 /\ m.bad = 0 /\ D1 # m.down
